@@ -344,10 +344,18 @@ func ruleR07cInto(h *H, rule string) {
 	for _, fn := range h.P.ImplMethods("server/wal", "Reader", "ReadNext") {
 		rt := namedName(fn.Signature.Recv().Type())
 		h.Fn(ir.FuncName(fn))
-		for i, w := range h.fieldStores(fn, false, "server/wal", "reader", "nextOffset") {
+		var posStores []ir.FieldWrite
+		ir.Instrs(fn, func(in ssa.Instruction) {
+			if st, ok := in.(*ssa.Store); ok {
+				if ref, ok := ir.FieldAddrOf(st.Addr); ok && ref.Field == "nextOffset" {
+					posStores = append(posStores, ir.FieldWrite{Fn: fn, Instr: st, Kind: "store", Val: st.Val})
+				}
+			}
+		})
+		for i, w := range posStores {
 			name := fmt.Sprintf("%s.ReadNext: position update #%d", rt, i+1)
 			bo, ok := ir.Canon(w.Val).(*ssa.BinOp)
-			stepOK := ok && (bo.Op == token.ADD || bo.Op == token.SUB) && isOne(bo.Y) && ir.LoadsField(bo.X, "server/wal", "reader", "nextOffset")
+			stepOK := ok && (bo.Op == token.ADD || bo.Op == token.SUB) && isOne(bo.Y) && loadsFieldNamed(bo.X, "nextOffset")
 			if !stepOK {
 				h.Bad(rule, name, h.pos(w.Instr), "the reader position is not moved by exactly one: "+ir.Describe(w.Val))
 				continue
@@ -433,4 +441,9 @@ func ruleQueuedContinuationsUnderLock(h *H, rule string) {
 	if n == 0 {
 		h.Anchor(rule, "invocation of a queued waiting-request callback in the ack tracker")
 	}
+}
+
+func loadsFieldNamed(v ssa.Value, field string) bool {
+	r, ok := ir.FieldLoadOf(ir.Canon(v))
+	return ok && r.Field == field
 }
